@@ -109,3 +109,9 @@ package middleware
 //@   ensures* fresh: typeIs(result, *adaptiveSampler) && fresh(result)
 //@   modifies* nothing
 //@   frameprop C20
+
+// The samplers draw their numbers from math/rand's package-level source, which is safe for concurrent use
+// (a private *rand.Rand is not): package initialisation binds the hook to rand.Intn.
+//@ func init
+//@   property C20
+//@   ensures* goroutine.safe.source: intn == rand.Intn
